@@ -11,6 +11,7 @@
 package simtest
 
 import (
+	"runtime"
 	"encoding/json"
 	"fmt"
 	"hash/fnv"
@@ -285,6 +286,7 @@ func TestWorker(t *testing.T) {
 		t.Skip("VERIF_PROP not set")
 	}
 	gen.Thorough = os.Getenv("VERIF_TIER") == "thorough"
+	go stuckWatch()
 	mode := os.Getenv("VERIF_MODE")
 	if mode == "" {
 		mode = "sweep"
@@ -486,4 +488,40 @@ func replay(t *testing.T, prop string, emit func(any)) {
 	}
 	emit(map[string]any{"kind": "replay", "property": prop, "violations": vs, "same_signature": same,
 		"trace_hash": fmt.Sprintf("%x", res.Hash), "same_hash": fmt.Sprintf("%x", res.Hash) == rec.TraceHash, "trace": tail(res, 200)})
+}
+
+// stuckWatch ends the process when the scheduler has not made a step for a minute of real time: a goroutine of the
+// library is blocked on something outside the simulation (see vnet.Progress). The driver treats that like any other
+// death of a worker: it runs the seed again, alone, and reports it only if it happens again.
+func stuckWatch() {
+	last, since := vnet.Progress.Load(), time.Now()
+	limit := time.Duration(envInt("VERIF_STUCK_S", 60)) * time.Second
+	for {
+		time.Sleep(2 * time.Second)
+		now := vnet.Progress.Load()
+		if now != last || !engine.Running.Load() {
+			last, since = now, time.Now()
+			continue
+		}
+		if time.Since(since) < limit {
+			continue
+		}
+		buf := make([]byte, 1<<20)
+		n := runtime.Stack(buf, true)
+		var keep []string
+		for _, g := range strings.Split(string(buf[:n]), "\n\n") {
+			if strings.Contains(g, "/repo/") && !strings.Contains(g, "vnet.post") {
+				lines := strings.Split(g, "\n")
+				if len(lines) > 9 {
+					lines = lines[:9]
+				}
+				keep = append(keep, strings.Join(lines, "\n"))
+			}
+		}
+		if len(keep) > 6 {
+			keep = keep[:6]
+		}
+		fmt.Fprintf(os.Stderr, "fatal error: simulated run stuck: a goroutine of the library is blocked on something the simulator does not own (a channel or lock created outside the run)\n\n%s\n", strings.Join(keep, "\n\n"))
+		os.Exit(3)
+	}
 }
